@@ -102,6 +102,9 @@ def channel(draw, name, kind, allow_child=True, like=None):
                 "tmp." + rf_name("rf", ms), "tmp." + dmd_name("metadata", ms), "notes.txt",
                 dmd_name("md", ms) if data_kind == "rf" else rf_name("rf", ms),  # file of the other kind
                 "rf@%d.00.h5" % (ms // 1000), "rf@%d.000.hdf5" % (ms // 1000), "rf%d.000.h5" % (ms // 1000), "@.h5",
+                # decimal digits that are not ASCII digits (fullwidth, Arabic-Indic): not part of the grammar
+                "rf@%s.500.h5" % "".join(chr(0xFF10 + int(c)) for c in str(ms // 1000)),
+                "metadata@%s.h5" % "".join(chr(0x0660 + int(c)) for c in str(ms // 1000)),
             ])))
         subdirs.append({"t": t, "files": files, "strays": sorted(set(strays))})
     strays = sorted(set(draw(st.lists(st.sampled_from(
@@ -217,6 +220,11 @@ def options(draw, tree):
         if cands:
             opts["vanish"] = draw(st.sampled_from(cands))
     # naive datetimes are documented to mean UTC (the checks run with a non-UTC local time zone)
+    # window edges need not be whole milliseconds (datetimes have microseconds; "now" never is)
+    opts["start_us"] = draw(st.sampled_from([0, 0, 0, 400, 999])) if opts["start"] is not None else 0
+    opts["end_us"] = draw(st.sampled_from([0, 0, 0, 400])) if opts["end"] is not None else 0
+    if opts["start"] is not None and opts["end"] is not None and opts["start"] == opts["end"] and opts["start_us"] > opts["end_us"]:
+        opts["start_us"] = opts["end_us"]
     opts["naive"] = draw(st.booleans())
     # also ask the command line for the same listing (None: no; else the spelling of times / default flags)
     opts["cli"] = draw(st.sampled_from([None, None, "iso", "float"]))
@@ -310,10 +318,11 @@ def expected_listing(tree, opts):
                 if (kind == "rf" and y_drf) or (kind == "dmd" and y_dmd):
                     cands.append((ms, os.path.join(path, sdn, fn)))
         cands.sort()
-        sel = [(ms, p) for ms, p in cands if (start is None or ms >= start) and (end is None or ms <= end)]
+        s_us = opts.get("start_us", 0)  # (an edge of start + 0.4 ms excludes the file stamped exactly at `start`)
+        sel = [(ms, p) for ms, p in cands if (start is None or ms > start or (ms == start and not s_us)) and (end is None or ms <= end)]
         fill = None
-        if y_dmd and start is not None and start != 0 and not any(ms == start for ms, _ in cands):
-            before = [(ms, p) for ms, p in cands if ms < start and (end is None or ms <= end)]
+        if y_dmd and start is not None and (start != 0 or s_us) and not any(ms == start and not s_us for ms, _ in cands):
+            before = [(ms, p) for ms, p in cands if (ms < start or (ms == start and s_us)) and (end is None or ms <= end)]
             if before:
                 fill = before[-1]
         chlist = list(sel)
@@ -331,10 +340,13 @@ def expected_listing(tree, opts):
 
 
 def lsdrf_kwargs(opts):
-    def t(ms):
+    def t(ms, us=0):
         d = to_dt(ms)
+        if d is not None and us:
+            d += datetime.timedelta(microseconds=us)
         return d.replace(tzinfo=None) if (d is not None and opts.get("naive")) else d
 
-    return dict(recursive=opts["recursive"], reverse=opts["reverse"], starttime=t(opts["start"]), endtime=t(opts["end"]),
+    return dict(recursive=opts["recursive"], reverse=opts["reverse"], starttime=t(opts["start"], opts.get("start_us", 0)),
+                endtime=t(opts["end"], opts.get("end_us", 0)),
                 include_drf=opts["include_drf"], include_dmd=opts["include_dmd"],
                 include_drf_properties=opts["include_drf_properties"], include_dmd_properties=opts["include_dmd_properties"])
